@@ -38,6 +38,8 @@ const (
 type vCluEnv struct {
 	onDial      func() // hook: runs once inside the next Dial
 	onProbe     func() // hook: runs once inside the next probe (QueueRPC)
+	probeRetry  int    // the next so many requests are answered "retry later" by a healthy connection
+	probeDead   int    // the next so many connections die at their first request
 	zkLike      bool   // lookups succeed although the client is closed (ZooKeeper-based: hbase:meta, master)
 	tableGone   bool   // the script let hbase:meta answer "no such table" at least once
 	c           *client
@@ -63,10 +65,11 @@ type vCluEnv struct {
 var vClu *vCluEnv
 
 type vCluRC struct {
-	addr   string
-	env    *vCluEnv
-	closed int
-	dead   bool
+	addr    string
+	env     *vCluEnv
+	closed  int
+	dead    bool
+	dialled bool // Dial succeeded: the connection is open until Close
 }
 
 func (e *vCluEnv) misbehave() bool {
@@ -99,6 +102,7 @@ func (r *vCluRC) Dial(ctx context.Context) error {
 		r.dead = true
 		return region.ServerError{}
 	}
+	r.dialled = true
 	return nil
 }
 func (r *vCluRC) Close()         { verifJitter(); r.closed++ }
@@ -108,6 +112,19 @@ func (r *vCluRC) String() string { return r.addr }
 func (r *vCluRC) answer(c hrpc.Call) {
 	verifJitter()
 	e := r.env
+	if e.probeRetry > 0 && r.closed == 0 && !r.dead {
+		// region still opening / call queue full: the (healthy) connection answers "retry later"
+		e.probeRetry--
+		c.ResultChan() <- hrpc.RPCResult{Error: region.RetryableError{}}
+		return
+	}
+	if e.probeDead > 0 && r.closed == 0 && !r.dead {
+		// the server accepts the connection and drops it at the first request
+		e.probeDead--
+		r.dead = true
+		c.ResultChan() <- hrpc.RPCResult{Error: region.ServerError{}}
+		return
+	}
 	if r.closed > 0 || r.dead {
 		c.ResultChan() <- hrpc.RPCResult{Error: region.ErrClientClosed}
 		return
@@ -410,6 +427,65 @@ func VerifEvictedWhileEstablishing() {
 	}
 	verifAssert(verifGoroutines() == 0, "no goroutine is left running or blocked")
 	verifReach("evicted")
+}
+
+// VerifReplacementRace: the establisher of a region in outage looks the region up and finds
+// that it was replaced (split / merge / re-creation); while it puts the replacement into the
+// cache and goes on to establish it, a request for a key of the replacement arrives (every
+// interleaving within the delay bound): the replacement is established by one establisher, its
+// waiters are released exactly once (a second release is a close of a nil channel), the
+// request completes.
+func VerifReplacementRace() {
+	c, e := vCluSetup()
+	reg := vMkRegion(0, 1, nil, nil)
+	c.regions.put(reg)
+	reg.MarkUnavailable()
+	newer := vMkRegion(0, 7, nil, nil)
+	e.replacedFor[""], e.replaced = newer, newer // hbase:meta lists the successor
+	fin := make(chan struct{}, 1)
+	var r1 vUserResult
+	go c.establishRegion(reg, "")
+	go vUserGet(c, context.Background(), "k", &r1, fin)
+	<-fin
+	verifQuiesce()
+	sleepAndIncreaseBackoffOverride = nil
+	verifAssert(r1.done && r1.err == nil, "the request completes against the replacement")
+	for _, r := range vTreeContents(&c.regions) {
+		if r.Context().Err() == nil {
+			verifAssert(!r.IsUnavailable() && r.Client() != nil, "no live cached region remains unavailable or without a connection")
+		}
+	}
+	verifAssert(verifGoroutines() == 0, "no goroutine is left running or blocked")
+	verifReach("replaced-under-load")
+}
+
+// VerifProbeRetryLater (C20): region A is online on the connection to rs0; region B of the same
+// server is being established and its first probes are answered "retry later" (still opening,
+// call queue full) - an answer from a healthy connection: no second connection to rs0 is opened,
+// A keeps its connection, B ends up on the same one.
+func VerifProbeRetryLater() {
+	c, e := vCluSetup()
+	ra, rb := vMkRegion(0, 1, nil, []byte("m")), vMkRegion(0, 2, []byte("m"), nil)
+	e.twoRegions = true
+	shared := e.factory("rs0:1", "", 0, 0, "", 0, nil, nil, nil)
+	c.regions.put(ra)
+	ra.SetClient(c.clients.put("rs0:1", ra, func() hrpc.RegionClient { return shared }))
+	c.regions.put(rb)
+	rb.MarkUnavailable()
+	e.probeRetry = verifInt(1, 2)
+	if verifBool() {
+		c.establishRegion(rb, "rs0:1")
+	} else {
+		c.establishRegion(rb, "") // the address comes from hbase:meta
+	}
+	verifQuiesce()
+	sleepAndIncreaseBackoffOverride = nil
+	verifAssert(e.made["rs0:1"] == 1, "no second connection to the regionserver is opened")
+	verifAssert(shared.(*vCluRC).closed == 0, "the healthy connection stays open")
+	verifAssert(ra.Client() == shared && !ra.IsUnavailable(), "the region that was online keeps its connection")
+	verifAssert(rb.Client() == shared && !rb.IsUnavailable(), "the region being established ends up on the same connection")
+	verifAssert(verifGoroutines() == 0, "no goroutine is left running or blocked")
+	verifReach("retried-later")
 }
 
 // VerifRegionMoved (C04): the region moved to another server while hbase:meta still lists the
